@@ -145,7 +145,8 @@ Proof.
   unfold exec_rerun. destruct (snd x); simpl.
   - reflexivity.
   - destruct (_ && _); reflexivity.
-  - unfold host_send. destruct (match aget _ _ with Some (Some d) => _ | _ => true end); reflexivity.
+  - destruct (ahas _ _); [|reflexivity].
+    unfold host_send. destruct (match aget _ _ with Some (Some d) => _ | _ => true end); reflexivity.
 Qed.
 
 Lemma do_reruns_cache now s : b_cache (do_reruns now s) = b_cache s.
@@ -410,10 +411,10 @@ Proof.
     cbn [negb]. rewrite orb_false_r.
     match goal with |- context [if ?bb then set_sub ?a c else c] => generalize (if bb then set_sub a c else c); intros c1 end.
     destruct (bucket (get_map k c1) _); cbn [orb];
-      destruct (update_rec now x _) as [[b2 u]|]; cbn [snd]; intros H; discriminate H.
+      destruct (update_rec now x _) as [[[b2 u] rv]|]; cbn [snd]; intros H; discriminate H.
   - rewrite andb_false_r. cbn [andb negb]. rewrite orb_false_r.
     destruct (bucket (get_map k c) _) eqn:Eb; [intros _; reflexivity|].
-    destruct (update_rec now x _) as [[b2 u]|]; cbn [snd]; intros H; discriminate H.
+    destruct (update_rec now x _) as [[[b2 u] rv]|]; cbn [snd]; intros H; discriminate H.
 Qed.
 
 Lemma aou_refused_same now fu x c :
@@ -527,7 +528,8 @@ Proof.
   unfold exec_rerun. destruct (snd x); simpl.
   - reflexivity.
   - destruct (_ && _); reflexivity.
-  - unfold host_send. destruct (match aget _ _ with Some (Some d) => _ | _ => true end); reflexivity.
+  - destruct (ahas _ _); [|reflexivity].
+    unfold host_send. destruct (match aget _ _ with Some (Some d) => _ | _ => true end); reflexivity.
 Qed.
 
 Lemma do_reruns_excess now s : b_excess (do_reruns now s) = b_excess s.
